@@ -101,7 +101,7 @@ def gen_file(r, fid, helper=None):
 
 def sections(out, names):
     """split the merged stream into per-file sections starting at `Validating <f>`"""
-    secs = {}
+    secs = {}          # name -> list of sections, one per occurrence, in order
     cur = None
     order = []
     for line in out.split("\n"):
@@ -110,11 +110,11 @@ def sections(out, names):
             base = os.path.basename(m.group(1))
             cur = base if base in names else None
             if cur is not None:
-                secs.setdefault(cur, [])
+                secs.setdefault(cur, []).append([])
                 order.append(cur)
             continue
         if cur is not None:
-            secs[cur].append(line)
+            secs[cur][-1].append(line)
     return secs, order
 
 
@@ -157,17 +157,22 @@ def judge_run(tp, names, order, truths, res, files, argv=None, alone_ref=None):
     out = {}
     any_fail = False
     earlier_failed = False
+    occ = {}
+    allsecs = secs
     for name in order:
         t = truths[name]
-        if name not in secs:
-            res.violation(["file-not-validated"], witness, {"file": name, "output": ev["stdout"][-400:]})
+        k = occ.get(name, 0)
+        occ[name] = k + 1
+        if name not in allsecs or len(allsecs[name]) <= k:
+            res.violation(["file-not-validated"], witness, {"file": name, "occurrence": k, "output": ev["stdout"][-400:]})
             return None
+        secs = {name: allsecs[name][k]}
         v = verdict_of(secs[name], name)
         rl = results.get(name, [])
         if len(rl) != order.count(name):
             res.violation(["results-line-count"], witness, {"file": name, "results_lines": rl, "full": ev["stdout"][-800:]})
             return None
-        v["results_line"] = rl[0] if rl else None
+        v["results_line"] = rl[k] if len(rl) > k else None
         out[name] = v
         reported_pass = (v["results_line"] == "PASS")
         ctx = "after-a-failing-file" if earlier_failed else "first-or-after-passing-files"
@@ -244,6 +249,12 @@ def task(args):
             for n in names:
                 res.case((json.dumps(files, sort_keys=True), (n,), "alone"), nontrivial=True)
                 judge_run(tp, names, (n,), truths, res, files)
+            if r.random() < 0.4:
+                # the same file given twice (and once more after the others): each occurrence is a test run of its own
+                n0 = r.choice(names)
+                order = (n0, n0) + tuple(x for x in names if x != n0) + (n0,)
+                res.case((json.dumps(files, sort_keys=True), order, "repeated"), nontrivial=True)
+                judge_run(tp, names, order, truths, res, files)
             if r.random() < 0.5:
                 # -r on the directory: order is the directory order, whatever it is
                 ev = core.run_cli(["test", "-r", "."], tp.root, timeout=60.0, merge=True)
